@@ -592,12 +592,14 @@ Proof.
         exists edge. split; auto.
         assert (C' : (if negb (vty_eqb (lty edge) (lty node)) then Ok (false, s)
                       else match lval edge, lval node with
-                           | Some a, Some b => Ok (qclose a b, s)
+                           | Some a, Some b =>
+                               if negb (neg_eqb (lneg edge) (lneg node)) then Ok (false, s) else Ok (qclose a b, s)
                            | _, _ => Ok (false, s)
                            end) = Ok (true, s0)) by (destruct (lval node); exact C).
         clear C. destruct (vty_eqb (lty edge) (lty node)) eqn:Et; cbn in C'; [|discriminate].
         destruct (lval edge) as [a|] eqn:Ea; [|discriminate].
         destruct (lval node) as [b|] eqn:Eb; [|discriminate].
+        destruct (neg_eqb (lneg edge) (lneg node)); cbn in C'; [|discriminate].
         inversion C'. split; [|congruence].
         split; [apply vty_eqb_true; auto|]. exists a, b. repeat split; auto. left; auto. }
     destruct Hcase as [[He Hv]|[edge [He [Hr Hv]]]].
